@@ -745,6 +745,61 @@ fn lean_c03(t: &mut Tctx) {
     }
 }
 
+/// Borrowed strings and byte slices of more than 4 GiB (a zero mapping with a length prefix written in front and
+/// one byte behind): the decoder must return all of it and continue right after it.  64-bit hosts, native stages.
+fn c03_huge_payloads(t: &mut Tctx) {
+    #[cfg(all(not(miri), target_pointer_width = "64"))]
+    {
+        if crate::mem::HugeZero::suppressed() {
+            return;
+        }
+        for n in [(1usize << 32) + 5, (1usize << 32) - 1] {
+            let mut prefix = Vec::new();
+            spec::varint(n as u128, &mut prefix);
+            let total = prefix.len() + n + 1;
+            let mut map = match crate::mem::HugeZero::new(total) {
+                Some(m) => m,
+                None => {
+                    t.st.count("c03_huge_payload_mapping_refused");
+                    return;
+                }
+            };
+            {
+                let m = map.as_mut_slice();
+                m[..prefix.len()].copy_from_slice(&prefix);
+                m[total - 1] = 0x2A;
+            }
+            let input = map.as_slice();
+            let base = input.as_ptr() as usize;
+            for what in ["str", "bytes", "truncated"] {
+                t.st.eval();
+                t.st.count("c03_huge_payload_cases");
+                t.st.nontrivial(fp_mix(0xC03_4616, n as u64 ^ fp(what.as_bytes())));
+                let rp = vec![kv("kind", "huge_payload"), kv("what", what), kv("n", n.to_string())];
+                let verdict: Result<(), String> = match what {
+                    "str" => match catch(|| postcard::take_from_bytes::<(&str, u8)>(input).map(|((s, b), rest)| (s.as_ptr() as usize, s.len(), b, rest.len()))) {
+                        Ok(Ok((p, l, 0x2A, 0))) if p == base + prefix.len() && l == n => Ok(()),
+                        other => Err(format!("{:?}", other.map(|r| r.map_err(|e| err_label(&e))))),
+                    },
+                    "bytes" => match catch(|| postcard::take_from_bytes::<(&[u8], u8)>(input).map(|((s, b), rest)| (s.as_ptr() as usize, s.len(), b, rest.len()))) {
+                        Ok(Ok((p, l, 0x2A, 0))) if p == base + prefix.len() && l == n => Ok(()),
+                        other => Err(format!("{:?}", other.map(|r| r.map_err(|e| err_label(&e))))),
+                    },
+                    _ => match catch(|| postcard::from_bytes::<&[u8]>(&input[..total - 2]).map(|s| s.len())) {
+                        Ok(Err(postcard::Error::DeserializeUnexpectedEnd)) => Ok(()),
+                        other => Err(format!("{:?} for an input one byte short of the claimed length", other.map(|r| r.map_err(|e| err_label(&e))))),
+                    },
+                };
+                if let Err(m) = verdict {
+                    t.st.violation("C03:huge-payload-differs", format!("{} with a claimed length of {}: {}", what, n, m), rp);
+                    return;
+                }
+            }
+        }
+    }
+    let _ = t;
+}
+
 fn c03_corpus_all(t: &mut Tctx, all_on_this_thread: bool) {
     let mut i = 0u64;
     macro_rules! one {
@@ -879,6 +934,10 @@ pub fn run_c03(cfg: &Cfg) -> Report {
     rep.stats.merge(s);
     let s = parallel(cfg, 4, |t| c03_corpus_all(t, false));
     rep.stats.merge(s);
+    if cfg.tier != Tier::Tiny {
+        let s = parallel(&Cfg { threads: 1, ..cfg.clone() }, 5, |t| c03_huge_payloads(t));
+        rep.stats.merge(s);
+    }
     rep.rule = "cases = (target shape or concrete type, input byte string): every byte string up to 3 (quick) / 4 (thorough) bytes for the u16/i16 \
                 decoders, every string up to 2 bytes for 13 small shapes, boundary-structured and random strings for 32/64/128-bit and pointer-sized \
                 varints, invalid UTF-8 classes, hostile char encodings, and for random shapes / corpus types: the valid encoding, all strict prefixes, \
@@ -1814,6 +1873,8 @@ fn replay(cfg: &Cfg, which: &str, p: &std::path::Path) -> Stats {
                 let judge = !shape.has_map() && !shape.has_zero_width_collection();
                 c04_dyn_case(t, &mut gb, &shape, &text, 0, "replay", &input, judge);
             }
+        } else if kind == "huge_payload" && which == "C03" {
+            c03_huge_payloads(t);
         } else if kind == "corpus" && which == "C03" {
             let name = m.get("type").cloned().unwrap_or_default();
             REPLAY_CONCRETE.with(|r| *r.borrow_mut() = Some((name, input.clone())));
